@@ -100,8 +100,8 @@ def rand_rows(rng, maxlen, universe=None, a=0, l=0):
     rows = []
     for s in seqs:
         if universe is not None:
-            z = universe.setdefault((a, l, s), rng.randint(300, 900))
+            z = universe.setdefault((a, l, s), rng.randint(480, 1200))
         else:
-            z = rng.randint(300, 900)
+            z = rng.randint(480, 1200)
         rows.append([s, z])
     return rows
